@@ -370,7 +370,7 @@ fn observe_arch<A>(w: &mut VW, step: u64, max_dump: usize, minted: &mut Vec<Enti
 where
     A: AOps + AKey<Entity<A>> + AKey<EntityAny> + ATyped<Entity<A>>,
 {
-    let sp = ((step + A::IDX as u64) % 13) as u8;
+    let sp = ((step + A::IDX as u64) % 14) as u8;
     let mv = step % 4;
     let (len, cap, emp) = { let a = A::arch(w); (a.len(), a.capacity(), a.is_empty()) };
     let snap = guard(|| A::snapshot(w, sp));
@@ -481,6 +481,8 @@ impl H {
             ("archs", J::A(archs)),
             ("queries", J::A(qs)),
             ("features", J::A(feats)),
+            ("zst", J::A(vec![J::s("Tz")])),
+            ("nodrop", J::A(vec![J::s("Qc")])),
             ("events", J::B(cfg!(feature = "events"))),
             ("wrapping", J::B(cfg!(feature = "wrapping_version"))),
             ("debug", J::B(cfg!(debug_assertions))),
@@ -639,13 +641,14 @@ impl H {
     pub fn emit(&mut self, mut ev: Vec<(&'static str, J)>) {
         let drops = reg::take_drops();
         let clones = reg::take_clones();
-        let (zl, zd, zc) = reg::with(|r| { let x = (r.z_live, r.z_drops, r.z_clones); r.z_drops = 0; r.z_clones = 0; x });
+        let (zl, zd, zc, ndc) = reg::with(|r| { let x = (r.z_live, r.z_drops, r.z_clones, r.nd_clones); r.z_drops = 0; r.z_clones = 0; r.nd_clones = 0; x });
         reg::clear_faults();
         ev.push(("drops", J::A(drops.iter().map(|d| ji(*d)).collect())));
         ev.push(("clones", J::A(clones.iter().map(|(a, b)| J::A(vec![ji(*a), ji(*b)])).collect())));
         ev.push(("zl", ji(zl)));
         ev.push(("zd", ji(zd)));
         ev.push(("zc", ji(zc)));
+        ev.push(("nc", ji(ndc)));
         let mut obs = Vec::new();
         for wi in 0..NW {
             if self.worlds[wi].is_some() {
